@@ -4,7 +4,10 @@ import EaselModel.Dist.FloatInst
 import EaselModel.Generated.Dist
 import EaselModel.Dist.Mix
 import EaselModel.Dist.Bisect
-/-! Line-protocol driver for the C10 model: runs the TRANSLATED functions at `Float`.
+/-! Line-protocol driver for the C10 model: runs the TRANSLATED functions at `Float` — since round 3 including the
+    mixtures (`esl_hxp_*`, `esl_mixgev_*`, `esl_vec_DLogSum/DMax/DMin`), the four bracketing + bisection inverses (fuel
+    `Bisect.defaultFuel` per loop; `hang` = exhausted) and the generic-API wrappers.  Hand-modelled remain: the special
+    functions (`Dist/Special.lean`, `erfcSun`) and the component choice of the mixture samplers (`Mix.dchoose`).
     `f fn=<name> a=<bits>,<bits>,…`            → `ok <bits>`
     `f2 fn=<g>,<f> a=<x>,<params…>`             → `ok <bits of g(f(x,params),params)>`
     `sample fn=<name> seed=<n> k=<draws> a=…`  → `ok <bits>,…` (k successive samples from a fresh MT19937 generator) -/
@@ -43,48 +46,46 @@ def uniLoop : Nat → Rng → List String → Option (List String)
 def argBits? (ws : List String) (k : String) : Option Float := (arg? ws k).bind parseBits
 def argList? (ws : List String) (k : String) : Option (List Float) := (arg? ws k).bind parseBitsList
 
-/-- the six x-functions of a mixture, by name -/
-def mixEval (ws : List String) (fn : String) (x : Float) : Option Float :=
-  match arg? ws "fam" with
-  | some "hxp" =>
-    match argBits? ws "mu", argList? ws "q", argList? ws "l" with
-    | some mu, some q, some l =>
-      if q.length != l.length || q.isEmpty then none else
-      let qs := q.zip l
-      match fn with
-      | "pdf" => some (Mix.hxp_pdf x mu qs) | "logpdf" => some (Mix.hxp_logpdf x mu qs)
-      | "cdf" => some (Mix.hxp_cdf x mu qs) | "logcdf" => some (Mix.hxp_logcdf x mu qs)
-      | "surv" => some (Mix.hxp_surv x mu qs) | "logsurv" => some (Mix.hxp_logsurv x mu qs)
-      | _ => none
-    | _, _, _ => none
-  | some "mixgev" =>
-    match argList? ws "q", argList? ws "mu", argList? ws "l", argList? ws "al" with
-    | some q, some mu, some l, some al =>
-      if q.length != l.length || q.length != mu.length || q.length != al.length || q.isEmpty then none else
-      let qs := q.zip (mu.zip (l.zip al))
-      match fn with
-      | "pdf" => some (Mix.mixgev_pdf x qs) | "logpdf" => some (Mix.mixgev_logpdf x qs)
-      | "cdf" => some (Mix.mixgev_cdf x qs) | "logcdf" => some (Mix.mixgev_logcdf x qs)
-      | "surv" => some (Mix.mixgev_surv x qs) | "logsurv" => some (Mix.mixgev_logsurv x qs)
-      | _ => none
-    | _, _, _, _ => none
-  | _ => none
+/-- the parameter structure of a mixture op (`wrk` = the K-vector `esl_hyperexp_Create` / `esl_mixgev_Create` allocate) -/
+def hxpOf (ws : List String) : Option (Gen.ESL_HYPEREXP Float) :=
+  match argBits? ws "mu", argList? ws "q", argList? ws "l" with
+  | some mu, some q, some l =>
+    if q.length != l.length || q.isEmpty then none else
+    some { mu := mu, K := q.length, q := q, lambda := l, wrk := List.replicate q.length 0.0 }
+  | _, _, _ => none
 
-/-- `esl_hxp_invcdf` / `esl_mixgev_invcdf` (outer `none` = ill-formed op, inner `none` = fuel exhausted) -/
-def mixInv (ws : List String) (p : Float) : Option (Option Float) :=
+def mixgevOf (ws : List String) : Option (Gen.ESL_MIXGEV Float) :=
+  match argList? ws "q", argList? ws "mu", argList? ws "l", argList? ws "al" with
+  | some q, some mu, some l, some al =>
+    if q.length != l.length || q.length != mu.length || q.length != al.length || q.isEmpty then none else
+    some { K := q.length, q := q, mu := mu, lambda := l, alpha := al, wrk := List.replicate q.length 0.0 }
+  | _, _, _, _ => none
+
+/-- the TRANSLATED `esl_hxp_*` / `esl_mixgev_*` (and their generic-API wrappers), by name;
+    outer `none` = ill-formed op, inner `none` = fuel exhausted -/
+def mixEval (ws : List String) (fn : String) (x : Float) : Option (Option Float) :=
+  let fuel := Bisect.defaultFuel
   match arg? ws "fam" with
   | some "hxp" =>
-    match argBits? ws "mu", argList? ws "q", argList? ws "l" with
-    | some mu, some q, some l =>
-      if q.length != l.length || q.isEmpty then none else
-      some (Bisect.invcdfRight (fun x => Mix.hxp_cdf x mu (q.zip l)) p mu)
-    | _, _, _ => none
+    (hxpOf ws).bind fun h =>
+      match fn with
+      | "pdf" => some (some (Gen.esl_hxp_pdf x h)) | "logpdf" => some (some (Gen.esl_hxp_logpdf x h))
+      | "cdf" => some (some (Gen.esl_hxp_cdf x h)) | "logcdf" => some (some (Gen.esl_hxp_logcdf x h))
+      | "surv" => some (some (Gen.esl_hxp_surv x h)) | "logsurv" => some (some (Gen.esl_hxp_logsurv x h))
+      | "invcdf" => some (Gen.esl_hxp_invcdf fuel x h)
+      | "generic_pdf" => some (some (Gen.esl_hxp_generic_pdf x h)) | "generic_cdf" => some (some (Gen.esl_hxp_generic_cdf x h))
+      | "generic_surv" => some (some (Gen.esl_hxp_generic_surv x h)) | "generic_invcdf" => some (Gen.esl_hxp_generic_invcdf fuel x h)
+      | _ => none
   | some "mixgev" =>
-    match argList? ws "q", argList? ws "mu", argList? ws "l", argList? ws "al" with
-    | some q, some mu, some l, some al =>
-      if q.length != l.length || q.length != mu.length || q.length != al.length || q.isEmpty then none else
-      some (Bisect.invcdfMix (fun x => Mix.mixgev_cdf x (q.zip (mu.zip (l.zip al)))) p (Bisect.dmin mu))
-    | _, _, _, _ => none
+    (mixgevOf ws).bind fun mg =>
+      match fn with
+      | "pdf" => some (some (Gen.esl_mixgev_pdf x mg)) | "logpdf" => some (some (Gen.esl_mixgev_logpdf x mg))
+      | "cdf" => some (some (Gen.esl_mixgev_cdf x mg)) | "logcdf" => some (some (Gen.esl_mixgev_logcdf x mg))
+      | "surv" => some (some (Gen.esl_mixgev_surv x mg)) | "logsurv" => some (some (Gen.esl_mixgev_logsurv x mg))
+      | "invcdf" => some (Gen.esl_mixgev_invcdf fuel x mg)
+      | "generic_pdf" => some (some (Gen.esl_mixgev_generic_pdf x mg)) | "generic_cdf" => some (some (Gen.esl_mixgev_generic_cdf x mg))
+      | "generic_surv" => some (some (Gen.esl_mixgev_generic_surv x mg)) | "generic_invcdf" => some (Gen.esl_mixgev_generic_invcdf fuel x mg)
+      | _ => none
   | _ => none
 
 /-- `esl_hxp_Sample` / `esl_mixgev_Sample`: `k = DChoose(r, q)`, then the component's `Sample(r, …)` -/
@@ -118,28 +119,26 @@ def mixSampleLoop (ws : List String) : Nat → Rng → List String → Option (L
         | none => none
       | _, _ => none
 
-/-- the generic-API wrappers `esl_<d>_generic_<f>(x, params)` forward to `esl_<d>_<f>(x, params[0], …)`: that is their spec -/
-def ungeneric (fn : String) : String := fn.replace "_generic_" "_"
-
 def step (s : Unit) (line : String) : Unit × String :=
   let ws := words line
   match ws with
   | "f" :: _ =>
     match arg? ws "fn", (arg? ws "a").bind parseBitsList with
     | some fn, some a =>
-      match ungeneric fn, a with
-      | "esl_sxp_invcdf", [p, mu, l, t] =>
-        (s, match Bisect.invcdfRight (fun x => Gen.esl_sxp_cdf x mu l t) p mu with | some v => s!"ok {hex64 v.toBits}" | none => "hang")
-      | "esl_gam_invcdf", [p, mu, l, t] =>
-        (s, match Bisect.invcdfGam (fun x => Gen.esl_gam_cdf x mu l t) p mu l t with | some v => s!"ok {hex64 v.toBits}" | none => "hang")
+      match fn, a with
       | "esl_stats_erfc", [x] => (s, s!"ok {hex64 (Num.erfc x).toBits}")
       | "esl_stats_LogGamma", [x] => (s, s!"ok {hex64 (Num.logGamma x).toBits}")
       | "esl_stats_IncGammaP", [a, x] => (s, s!"ok {hex64 (Num.incGammaP a x).toBits}")
       | "esl_stats_IncGammaQ", [a, x] => (s, s!"ok {hex64 (Num.incGammaQ a x).toBits}")
       | _, _ =>
-      match Gen.dispatch (ungeneric fn) a with
+      match Gen.dispatch fn a with
       | some v => (s, s!"ok {hex64 v.toBits}")
-      | none => (s, "unmodelled")
+      | none =>
+        -- loop-containing functions (fuel) and the generic-API wrappers over a parameter vector, all TRANSLATED
+        match Gen.dispatchP Bisect.defaultFuel fn a with
+        | some (some v) => (s, s!"ok {hex64 v.toBits}")
+        | some none => (s, "hang")
+        | none => (s, "unmodelled")
     | _, _ => (s, "bad-op")
   | "f2" :: _ =>
     match (arg? ws "fn").map (·.splitOn ","), (arg? ws "a").bind parseBitsList with
@@ -167,14 +166,10 @@ def step (s : Unit) (line : String) : Unit × String :=
     | _, _, _, _ => (s, "bad-op")
   | "mix" :: _ =>
     match arg? ws "fn", argBits? ws "x" with
-    | some "invcdf", some p | some "generic_invcdf", some p =>
-      match mixInv ws p with
+    | some fn, some x =>
+      match mixEval ws fn x with
       | some (some v) => (s, s!"ok {hex64 v.toBits}")
       | some none => (s, "hang")
-      | none => (s, "bad-op")
-    | some fn, some x =>
-      match mixEval ws (fn.replace "generic_" "") x with
-      | some v => (s, s!"ok {hex64 v.toBits}")
       | none => (s, "bad-op")
     | _, _ => (s, "bad-op")
   | "mixsample" :: _ =>
